@@ -428,3 +428,51 @@ CASES += [
     (assert_and_raise, [(1,), (3,), (4,), (5,)]),
     (with_stmt, [(0,), (1,)]),
 ]
+
+
+class Node:
+    def __init__(self, items, log):
+        self.items = items
+        self.log = log
+
+    def __deepcopy__(self, memo):
+        import copy
+        clone = Node.__new__(Node)
+        memo[id(self)] = clone
+        clone.items = copy.deepcopy(self.items, memo)
+        clone.log = self.log            # deliberately shared
+        return clone
+
+
+def deepcopy_hook(xs):
+    import copy
+    a = Node(list(xs), [])
+    b = copy.deepcopy(a)
+    b.items.append(99)
+    b.log.append('b')
+    return a.items, b.items, a.log, b.log, a.items is b.items, a.log is b.log
+
+
+def filtered_concat(xs, ys, k):
+    played = [x for x in xs if x % 2 == k]
+    played += [y for y in ys if y % 2 == k]
+    return len(played) >= 3, played, [x for x in xs if x > k] + [y for y in ys if y > k]
+
+
+def np_full_write(n, v):
+    import numpy as np
+    a = np.full(n, -1)
+    a[0] = v
+    try:
+        a[n] = v
+        over = False
+    except IndexError:
+        over = True
+    return (True if a[0] == v else False), (True if a[n - 1] == (v if n == 1 else -1) else False), over
+
+
+CASES += [
+    (deepcopy_hook, [([1, 2],), ([],)]),
+    (filtered_concat, [([1, 2, 3, 4], [5, 6, 7], 1), ([], [2], 0)]),
+    (np_full_write, [(3, 7), (1, 0)]),
+]
